@@ -254,6 +254,21 @@ def run(ctx) -> None:
         services_v = sp_stmt.targets[0].id if isinstance(sp_stmt, ast.Assign) and isinstance(sp_stmt.targets[0], ast.Name) else None
 
     def classify(test) -> str:
+        k, _pol = classify_pol(test)
+        return k
+
+    def classify_pol(test) -> tuple:
+        """(row kind, label on which the row's condition is TRUE)"""
+        pol = "t"
+        while isinstance(test, ast.UnaryOp) and isinstance(test.op, ast.Not):
+            inner = test.operand
+            # `not services` is itself the 'empty' test
+            if isinstance(inner, ast.Name) and inner.id == services_v:
+                break
+            test, pol = inner, ("f" if pol == "t" else "t")
+        return _classify(test), pol
+
+    def _classify(test) -> str:
         t = ast.unparse(test)
         if isinstance(test, ast.Compare) and isinstance(test.left, ast.Call) and call_name(test.left) == "len" and services_v in names_in(test.left):
             if is_const(test.comparators[0], 0) and isinstance(test.ops[0], ast.Eq):
@@ -273,20 +288,28 @@ def run(ctx) -> None:
     # decision list read off the CFG: starting at the first ladder test, follow the FALSE
     # edges; each classified test contributes a row whose action is its TRUE side
     ladder_tests = [t for t in cfg.live_nodes() if t.kind == "test" and classify(t.ast) in ("empty", "named", "single", "default") and t.id in cfg.reach([services_pop[0].id] if services_pop else [cfg.entry])]
+    # a test that merely decides whether the environment variable is consulted is not a ladder row
+    from .discharge import controlling_tests as _ct
+
+    env_guards = {t.id for n_ in env_defs for t, _lab in _ct(cfg, n_) if service_p in names_in(t.ast) and services_v not in names_in(t.ast)}
+    ladder_tests = [t for t in ladder_tests if t.id not in env_guards]
     ladder_tests.sort(key=lambda t: t.lineno)
     rows = []  # (kind, region nodes of the action, report ast)
+    polarity: dict = {}
     if ladder_tests:
         seen_ids = set()
         cur = ladder_tests[0]
         while cur is not None and cur.id not in seen_ids:
             seen_ids.add(cur.id)
-            kind = classify(cur.ast)
-            t_side = cfg.reach([d for d, lab in cur.succ if lab == "t"], avoid=[cur.id], edge_ok=lambda s_, d_, lab: lab not in ("e", "h"))
+            kind, yes = classify_pol(cur.ast)
+            no = "f" if yes == "t" else "t"
+            polarity[cur.id] = yes
+            t_side = cfg.reach([d for d, lab in cur.succ if lab == yes], avoid=[cur.id], edge_ok=lambda s_, d_, lab: lab not in ("e", "h"))
             rows.append((kind, t_side, cur.ast, cur))
             # next ladder test reachable on the false side without passing another ladder test
-            f_side = cfg.reach([d for d, lab in cur.succ if lab == "f"], avoid=[cur.id] + [x.id for x in ladder_tests if x.id != cur.id], edge_ok=lambda s_, d_, lab: lab not in ("e", "h"))
+            f_side = cfg.reach([d for d, lab in cur.succ if lab == no], avoid=[cur.id] + [x.id for x in ladder_tests if x.id != cur.id], edge_ok=lambda s_, d_, lab: lab not in ("e", "h"))
             nxt = [x for x in ladder_tests if x.id not in seen_ids and any(p_ in f_side or p_ == cur.id for p_, lab in x.pred)]
-            nxt = [x for x in nxt if x.id in cfg.reach([d for d, lab in cur.succ if lab == "f"], avoid=[cur.id], edge_ok=lambda s_, d_, lab: lab not in ("e", "h"))]
+            nxt = [x for x in nxt if x.id in cfg.reach([d for d, lab in cur.succ if lab == no], avoid=[cur.id], edge_ok=lambda s_, d_, lab: lab not in ("e", "h"))]
             if nxt:
                 cur = min(nxt, key=lambda t: t.lineno)
             else:
@@ -316,7 +339,7 @@ def run(ctx) -> None:
     for kind, region, node, tnode in rows:
         if kind != "else":
             # include the exceptional continuations of the action (e.g. `except KeyError: raise ClickException`)
-            region = cfg.reach([d for d, lab in tnode.succ if lab == "t"], avoid=[tnode.id])
+            region = cfg.reach([d for d, lab in tnode.succ if lab == polarity.get(tnode.id, "t")], avoid=[tnode.id])
         acts = first_action(region, tnode, "t")
         if kind in ("empty", "else"):
             reaches_merge = svc_merge[1] is not None and svc_merge[1].id in region
